@@ -159,6 +159,9 @@ func (x iface) eq(t types.Type, _y interface{}) bool {
 }
 
 func (x iface) hash(outer types.Type) int {
+	if x.t == nil {
+		return 0
+	}
 	return hashType(x.t)*8581 + hash(outer, x.t, x.v)
 }
 
@@ -511,4 +514,3 @@ func (it *stringIter) next() tuple {
 	it.i += n
 	return okv
 }
-
